@@ -217,6 +217,16 @@ Section WithIp.
     if is_ip (trim_suffix_dot qname) then st
     else remember_dns_knowledge st (store_key qname qtype scope) (s_now st + ttl_s * 1000000000).
 
+  (* routeDial: the first attempt, and one retry when the first proxy dial fails with a local network
+     failure; every attempt calls chooseProxyDialer with the dial parameters p.  What the retry's
+     parameters do with Domain is extracted from the source (gen: route_dial_retry_keeps_domain). *)
+  Definition retry_domain (domain : str) : str := if route_dial_retry_keeps_domain then domain else [].
+  Definition route_dial_domains (domain : str) (first_fails : bool) : list str :=
+    domain :: (if first_fails then [retry_domain domain] else []).
+  (* the variant whose retry runs on a copy of the parameters without Domain *)
+  Definition route_dial_domains_dropping (domain : str) (first_fails : bool) : list str :=
+    domain :: (if first_fails then [[]] else []).
+
   Inductive op :=
   | OpRemember (key : str) (expires : Z)          (* a DNS answer for base key `key` entered the cache *)
   | OpAdvance (dt : Z)                            (* time passes (dt >= 0) *)
